@@ -124,16 +124,20 @@ pub fn split(r: &mut Rg, total: u64, n: usize) -> Vec<u64> {
 }
 
 pub fn spent_output(r: &mut Rg, asset: AssetId, value: u64, confidential: bool) -> (TxOut, TxOutSecrets) {
-    let (abf, vbf) = if confidential {
-        (AssetBlindingFactor::new(r), ValueBlindingFactor::new(r))
-    } else {
-        (AssetBlindingFactor::zero(), ValueBlindingFactor::zero())
-    };
+    spent_output_kind(r, asset, value, if confidential { 1 } else { 0 })
+}
+
+/// kind 0: explicit, 1: confidential, 2: confidential asset with explicit value,
+/// 3: explicit asset with confidential value (partially blinded outputs exist on chain,
+/// e.g. the outputs spent by tests/data/issue_tx.hex)
+pub fn spent_output_kind(r: &mut Rg, asset: AssetId, value: u64, kind: u8) -> (TxOut, TxOutSecrets) {
+    let abf = if kind == 1 || kind == 2 { AssetBlindingFactor::new(r) } else { AssetBlindingFactor::zero() };
+    let vbf = if kind == 1 || kind == 3 { ValueBlindingFactor::new(r) } else { ValueBlindingFactor::zero() };
     let secrets = TxOutSecrets::new(asset, abf, value, vbf);
     let out = with_secp(|s| TxOut {
-        asset: if confidential { Asset::new_confidential(s, asset, abf) } else { Asset::Explicit(asset) },
-        value: if confidential { Value::new_confidential_from_assetid(s, value, asset, vbf, abf) } else { Value::Explicit(value) },
-        nonce: if confidential && chance(r, 1, 2) { Nonce::Confidential(super::public_key(r)) } else { Nonce::Null },
+        asset: if kind == 1 || kind == 2 { Asset::new_confidential(s, asset, abf) } else { Asset::Explicit(asset) },
+        value: if kind == 1 || kind == 3 { Value::new_confidential_from_assetid(s, value, asset, vbf, abf) } else { Value::Explicit(value) },
+        nonce: if kind != 0 && chance(r, 1, 2) { Nonce::Confidential(super::public_key(r)) } else { Nonce::Null },
         script_pubkey: address_script(r),
         witness: Default::default(),
     });
@@ -173,15 +177,22 @@ pub fn scenario(r: &mut Rg, d: &Dials) -> Scenario {
     let mut spent_secrets = Vec::new();
     let mut blind_secrets = Vec::new();
     let mut n_conf_in = 0;
+    let mut n_partial_in = 0;
     let mut n_iss = 0;
     let mut n_reiss = 0;
     for i in 0..n_in {
         // every asset is funded by at least one input when there are enough inputs
         let asset = if i < n_assets { assets[i] } else { *pick(r, &assets) };
         let value = if d.big_values { value_class(r) } else { r.gen_range(1..100_000) };
-        let conf = chance(r, 1, 2);
-        n_conf_in += conf as usize;
-        let (out, sec) = spent_output(r, asset, value, conf);
+        let kind = match r.gen_range(0..8) {
+            0..=2 => 0u8,
+            3..=5 => 1,
+            6 => 2,
+            _ => 3,
+        };
+        n_conf_in += (kind != 0) as usize;
+        n_partial_in += (kind >= 2) as usize;
+        let (out, sec) = spent_output_kind(r, asset, value, kind);
         add(&mut totals, asset, value);
         let mut txin = TxIn {
             previous_output: OutPoint { txid: Txid::from_byte_array(arr32(r)), vout: r.gen_range(0..8) },
@@ -294,9 +305,10 @@ pub fn scenario(r: &mut Rg, d: &Dials) -> Scenario {
     let first_marked = receivers.iter().position(|x| x.is_some()).unwrap_or(0);
     let last_marked = receivers.iter().rposition(|x| x.is_some()).unwrap_or(0);
     let shape = format!(
-        "in{}c{} iss{} reiss{} assets{} out{} marked{} first{} last{} fee{}",
+        "in{}c{}p{} iss{} reiss{} assets{} out{} marked{} first{} last{} fee{}",
         n_in,
         n_conf_in,
+        n_partial_in,
         n_iss,
         n_reiss,
         totals.len(),
